@@ -33,7 +33,9 @@ ScEnd == /\ IsEvent("sc.end")
          /\ Report(l, IF Trace[l].dials <= MaxDialsPerExchange * Count(Trace[l].sc) THEN {} ELSE {"Inv_C14_RetryBound"})
          /\ UNCHANGED <<ex, killed, nex>>
 
-Next == ScBegin \/ Begin \/ Fault \/ End \/ ScEnd
+\* the bulk phase that uses up a connection's transaction IDs (its exchanges are not recorded one by one)
+Bulk == IsEvent("bulk") /\ UNCHANGED <<ex, killed, nex>>
+Next == Bulk \/ ScBegin \/ Begin \/ Fault \/ End \/ ScEnd
 Spec == Init /\ [][Next]_tvars
 Post == Consumed
 =============================================================================
